@@ -4,6 +4,7 @@
 -/
 import Lessm.Model.Color
 import Lessm.Model.Builtins
+import Lessm.Model.Guard
 
 open Lessm
 
@@ -16,6 +17,31 @@ def optStr (o : Option (List Char)) : String :=
   match o with
   | some l => String.ofList l
   | none => "none"
+
+def parseRat (s : String) : Option Rat :=
+  match s.splitOn "/" with
+  | [n, d] => do
+      let n ← n.toInt?
+      let d ← d.toNat?
+      if d = 0 then none else some ((n : Rat) / (d : Rat))
+  | [n] => (n.toInt?).map (fun (i : Int) => (i : Rat))
+  | _ => none
+
+def parseCmp : String → Option Guard.Cmp
+  | ">" => some .gt | "<" => some .lt | "=" => some .eq | ">=" => some .ge | "=<" => some .le
+  | _ => none
+
+def parseCond (s : String) : Option Guard.Cond :=
+  match (s.splitOn " ").filter (· ≠ "") with
+  | [n, a, c, b] => do
+      let a ← parseRat a
+      let b ← parseRat b
+      let c ← parseCmp c
+      some ⟨n == "1", .lit a, c, .lit b⟩
+  | _ => none
+
+def parseGuard (s : String) : Option Guard.Guard :=
+  (s.splitOn " | ").mapM (fun ch => (ch.splitOn " & ").mapM parseCond)
 
 def handle (op : String) (payload : String) : String :=
   let args := (payload.splitOn " ").filter (· ≠ "")
@@ -36,6 +62,17 @@ def handle (op : String) (payload : String) : String :=
     -- payloads whose fields may contain spaces are separated by U+001F
     match op, payload.splitOn "\x1f" with
     | "c17.unknown", name :: rest => Builtins.callUnknown name rest
+    | "c06.guard", [g] =>
+        match parseGuard g with
+        | some g => if Guard.passes g (fun _ => 0) then "1" else "0"
+        | none => "bad-op"
+    | "c06.first", gs =>
+        match gs.mapM parseGuard with
+        | some gs =>
+            match Guard.firstMatch (gs.zipIdx) (fun _ => 0) with
+            | some i => toString i
+            | none => "none"
+        | none => "bad-op"
     | _, _ => "bad-op"
 
 partial def loop (h : IO.FS.Stream) (out : IO.FS.Stream) : IO Unit := do
